@@ -22,12 +22,14 @@ RULE = ("definitions covering every template arm of the 15 non-deprecated derive
         "definitions are compiled (1) in a #![no_std] library against strum with default features off, (2) with strum reachable "
         "only as a renamed dependency behind a nested re-export and every enum carrying #[strum(crate = \"..\")], (3) inside "
         "modules that declare `mod core {}`, `mod std {}` and `mod alloc {}`, (4) with `crate = \"<one identifier>\"` naming a local "
-        "alias (`use renamed_strum as st_alias;`) or a local re-exporting module. A static finding is confirmed by a compile failure "
+        "alias (`use renamed_strum as st_alias;`) or a local re-exporting module, (5) next to look-alikes of the prelude names Result / Ok / Err / "
+        "AsRef / TryFrom / FromStr / Send / Sync / PhantomData and modules named marker / fmt / iter / option / result / convert / default. A static finding is confirmed by a compile failure "
         "before it is reported; a compile failure is reported by itself. non-trivial = distinct (definition, derive) expansions "
         "audited + distinct (definition, configuration) compiled")
-ASSUMPTIONS = ["rustc's real name resolution is modelled only as far as Model/Paths.v goes; the four build configurations are the oracle",
+ASSUMPTIONS = ["rustc's real name resolution is modelled only as far as Model/Paths.v goes; the five build configurations are the oracle",
                "user-written tokens (field types, attribute arguments) are told apart by comparing with the paths of the derive input"]
 
+PRELUDE_LOOKALIKES = ["Result", "Ok", "AsRef", "Send", "PhantomData"]
 DERIVES15 = ["EnumString", "Display", "AsRefStr", "IntoStaticStr", "VariantNames", "VariantArray", "EnumIter", "EnumCount", "FromRepr",
              "EnumTable", "EnumIs", "EnumTryAs", "EnumMessage", "EnumProperty", "EnumDiscriminants"]
 
@@ -194,6 +196,10 @@ def lib_source(defs, mode):
         src = render_item(it, ["%s::%s" % (sp, d) for d in derives] + ["Clone", "Debug", "PartialEq"],
                           bounds="Default + Clone + PartialEq + ::core::fmt::Debug" if it.tparams else "")
         shadow = "mod core {} mod std {} mod alloc {}\n" if mode == "shadow" else ""
+        if mode == "prelude":
+            # look-alikes of prelude names next to the enum (the ones EVERY derive is immune to on the unchanged tree, DESIGN.md 9.5)
+            from vlib.defs import HOSTILE
+            shadow = "\n".join(HOSTILE[n_] for n_ in PRELUDE_LOOKALIKES) + "\n"
         body = "pub mod d%d {\nuse super::*;\n%s%s\n}" % (k, shadow, src)
         start = len("\n".join(lines).split("\n")) + 1
         lines.append(body)
@@ -236,7 +242,7 @@ def extra_checks(corpus, tier, model, impl):
     dep_renamed = 'renamed_strum = { package = "strum", path = "%s/strum", default-features = false, features = ["derive", "phf"] }' % R.REPO
     compile_bad = {}
     compiled = 0
-    for mode in ("nostd", "renamed", "shadow", "alias"):
+    for mode in ("nostd", "renamed", "shadow", "alias", "prelude"):
         want_tag = {"renamed": "crate", "alias": "alias"}.get(mode, "default")
         defs = [(k, it, corpus.meta[k]["derives"]) for k, it in corpus.defs.items() if corpus.meta[k]["tag"] == want_tag]
         src, ranges = lib_source(defs, mode)
